@@ -20,46 +20,70 @@ def run(model, R):
     func = model.func('contexts.MinimizeMixin._minimize')
     p_ext, p_int = func.params[-2:]
     S = Sorter(func, {p_ext: 'O', p_int: 'P'})
-    # empty-extent branch
-    first = [s for s in func.body if isinstance(s, ast.If)]
+    from ..astutil import context_of
+    ys = sorted((n for n in walk(func.body) if isinstance(n, (ast.Yield, ast.YieldFrom))), key=lambda n: n.lineno)
+
+    def extent_polarity(ctx):
+        """True/False if the context fixes the truthiness of the extent, None otherwise."""
+        pol = None
+        for c in ctx:
+            if c[0] in ('if', 'guard'):
+                t, neg = strip_not(c[1])
+                if name_is(t, p_ext):
+                    pol = (c[2] != neg)
+        return pol
+    empty_y = [y for y in ys if isinstance(y, ast.Yield) and name_is(y.value, p_int)]
+    loop_y = [y for y in ys if y not in empty_y]
     ok = False
-    if first:
-        br = first[0]
-        t, neg = strip_not(br.test)
-        if neg and name_is(t, p_ext):
-            ys = [s for s in br.body if isinstance(s, ast.Expr) and isinstance(s.value, ast.Yield)]
-            ok = (len(ys) == 1 and name_is(ys[0].value.value, p_int) and isinstance(br.body[-1], ast.Return) and br.body[-1].value is None
-                  and len(br.body) == 2)
-    R.check(ok, 'MINIMIZE', func, first[0] if first else func.node, 'empty extent: the full intent, once',
-            f'if not {p_ext}: yield {p_int}; return', src(first[0])[:80] if first else 'no branch')
-    loops = [s for s in func.body if isinstance(s, ast.For)]
-    if len(loops) != 1:
+    if len(empty_y) == 1:
+        ctx = context_of(func.body, empty_y[0]) or []
+        ok = extent_polarity(ctx) is False and not any(c[0] in ('for', 'while') for c in ctx)
+    R.check(ok, 'MINIMIZE', func, empty_y[0] if empty_y else func.node, 'empty extent: the full intent, once',
+            f'if not {p_ext}: yield {p_int}; return', 'the full intent is not yielded exactly on the empty-extent path' if not ok else '', strict=True)
+    if len(loop_y) != 1 or not isinstance(loop_y[0], ast.Yield):
+        raise Unrecognised(f'{len(loop_y)} candidate yields', func=func, node=func.node)
+    y = loop_y[0]
+    ctx = context_of(func.body, y) or []
+    R.check(extent_polarity(ctx) is True or (extent_polarity(ctx) is None and len(empty_y) == 1 and extent_polarity(context_of(func.body, empty_y[0]) or []) is False
+                                             and any(c[0] == 'guard' for c in ctx)),
+            'MINIMIZE', func, y, 'candidates are searched only for a non-empty extent', f'after "if not {p_ext}: ...; return"', str(extent_polarity(ctx)), strict=True)
+    fors = [c for c in ctx if c[0] == 'for']
+    if len(fors) != 1:
         raise Unrecognised('candidate loop', func=func, node=func.node)
-    loop = loops[0]
-    it = loop.iter
-    R.check(isinstance(it, ast.Call) and chain(it.func) == [p_int, 'powerset'] and not it.args, 'MINIMIZE', func, loop,
+    _, tgt, it = fors[0]
+    R.check(isinstance(it, ast.Call) and chain(it.func) == [p_int, 'powerset'] and not it.args, 'MINIMIZE', func, it,
             'candidates are the subsets of the intent (shortlex)', f'for it in {p_int}.powerset()', src(it))
-    v = loop.target.id if isinstance(loop.target, ast.Name) else None
+    v = tgt.id if isinstance(tgt, ast.Name) else None
     S.types[v] = 'P'
-    ifs = [s for s in loop.body if isinstance(s, ast.If)]
-    ok = False
-    found = src(loop.body)
-    if len(ifs) == 1 and len(loop.body) == 1 and not ifs[0].orelse:
-        t = ifs[0].test
-        found = src(t)
-        if isinstance(t, ast.Compare) and len(t.ops) == 1:
-            l, r = t.left, t.comparators[0]
-            sl, sr = S.sort(l), S.sort(r)
-            if sl != sr or sl != 'O':
-                R.bad('MINIMIZE', func, t, 'candidate test compares object sets', 'candidate.prime() (objects) == extent (objects)',
-                      f'{src(l)}: {sl} vs {src(r)}: {sr}')
-            if isinstance(t.ops[0], ast.Eq):
-                sides = {src(l), src(r)}
-                ok = sides == {f'{v}.prime()', p_ext}
-            ys = [s for s in ifs[0].body if isinstance(s, ast.Expr) and isinstance(s.value, ast.Yield) and name_is(s.value.value, v)]
-            ok = ok and len(ys) == 1 and len(ifs[0].body) == 1
-    R.check(ok, 'MINIMIZE', func, ifs[0] if ifs else loop, 'yield a candidate iff it regenerates exactly the extent',
-            f'if {v}.prime() == {p_ext}: yield {v}', found[:100])
+    tests = [c for c in ctx[ctx.index(fors[0]) + 1:] if c[0] in ('if', 'guard')]
+    R.check(name_is(y.value, v), 'MINIMIZE', func, y, 'the candidate itself is yielded', f'yield {v}', src(y))
+    if len(tests) != 1:
+        R.unknown('MINIMIZE', func, y, 'yield a candidate iff it regenerates exactly the extent', f'{len(tests)} conditions around the yield')
+    else:
+        _, t, pol = tests[0]
+        t, neg = strip_not(t)
+        pol = pol != neg
+        # decided as a Boolean function of D = candidate.prime() and E = extent
+        from .. import bitalg
+
+        def var_of(n):
+            if isinstance(n, ast.Call) and chain(n.func) == [v, 'prime'] and not n.args:
+                return 'D'
+            if name_is(n, p_ext):
+                return 'E'
+            return None
+        try:
+            pred = bitalg.compile_pred(t, var_of, lambda x: 'O')
+            pats = list(bitalg.patterns(['D', 'E']))
+            spec = bitalg.Pred(lambda occ: all(r['D'] == r['E'] for r in occ) == pol, 'D == E')
+            diff = bitalg.equivalent(pred, spec, pats)
+            R.decided(diff is None, 'MINIMIZE', func, t, 'yield a candidate iff it regenerates exactly the extent',
+                      f'{v}.prime() == {p_ext}', pred.text + ('' if pol else ' (negated)'),
+                      extra={'objects (in candidate\'s derivation, in extent)': [[r['D'], r['E']] for r in diff]} if diff else None)
+        except bitalg.SortError as e:
+            R.bad('MINIMIZE', func, t, 'candidate test compares object sets', f'{v}.prime() == {p_ext}', str(e))
+        except Unrecognised as e:
+            R.unknown('MINIMIZE', func, t, 'yield a candidate iff it regenerates exactly the extent', e.what)
     f = model.func('contexts.MinimizeMixin._minimal')
     r = [n.value for n in walk(f.body) if isinstance(n, ast.Return)]
     ok = (len(r) == 1 and isinstance(r[0], ast.Call) and name_is(r[0].func, 'next') and isinstance(r[0].args[0], ast.Call)
